@@ -1,14 +1,14 @@
 #pragma once
 #include <stdint.h>
 // C01 — parallel loops. Shared between the halves.
-enum { C01_FOR = 0, C01_FOREACH_CONT = 1, C01_FOREACH_IT = 2, C01_BLOCKS = 3, C01_FOREACH_DEQUE = 4 };  // DEQUE: a random-access range that is not contiguous
+enum { C01_FOR = 0, C01_FOREACH_CONT = 1, C01_FOREACH_IT = 2, C01_BLOCKS = 3, C01_FOREACH_DEQUE = 4, C01_BLOCKS_WIDE = 5 };  // DEQUE: a random-access range that is not contiguous; BLOCKS_WIDE: parallel_in_blocks_of with block sizes 2^30 / INT_MAX and counts close to the index type's range (the body takes a block as one unit)
 enum { C01_MAXCALLS = 3 };
 struct C01Call
 {
   int api;
   int itype;           // 0 unsigned char, 1 short, 2 int, 3 unsigned, 4 long, 5 long long, 6 unsigned long long, 7 size_t
   long long count;
-  int block;           // 1, 3, 16, 64
+  int block;           // 1, 3, 16, 64; BLOCKS_WIDE: 1<<30 or INT_MAX
   int cost_mod, cost;  // body cost = cost scheduling points for indices with (i % cost_mod == 0), else 0
   int nested_at;       // index whose body launches the inner loop (-1: none)
   long long inner_count;
@@ -34,6 +34,7 @@ void c01_call_aborted(int h);               // the call ended with the exception
 // body events; return 1 if the harness may touch slot idx (index valid and first visit)
 int c01_body(int h, long long idx);
 int c01_block(int h, long long begin, long long end);
+void c01_wide_block(int h, unsigned long long begin, unsigned long long end, int is_signed);
 void c01_body_exit(int h);
 void c01_slot_check(int h, long long idx, int value);
 void c01_prefill_ran(void);
@@ -41,4 +42,5 @@ void c01_blocker(void);
 void c01_wait_blockers(int n);
 void c01_release_blockers(void);
 void c01_run();
+int c01_small_index_blocks();   // instrumented half: parallel_in_blocks_of instantiates for unsigned char / short
 }
